@@ -80,7 +80,7 @@ def ops():
     typed("setint", "int", "multi=1|x", 0, "72", 72)
     for cmd, app in (("setlist", False), ("addlist", True)):
         for n in (0, 1, 3):
-            vals = [100 + k for k in range(n)]
+            vals = [100, -1, -2147483648][:n] if n != 1 else [-5]      # plain C ints, also negative ones, through the variadic call
             O.append(("%s il %r" % (cmd, vals), [cmd, 1, H("il"), "i", n] + [str(v) for v in vals],
                       lambda m, vals=vals, app=app: m.setlist("il", "int", vals, app)))
         O.append(("%s sl [u,v]" % cmd, [cmd, 1, H("sl"), "s", 2, H("u"), H("v")], lambda m, app=app: m.setlist("sl", "str", ["u", "v"], app)))
